@@ -243,11 +243,14 @@ pub fn val_to_string(v: &Variable, types: bool, ids: &mut Ids, depth: usize) -> 
             }
         }
         Variable::Struct(vm) => {
-            let mut l: Vec<(String, String)> = vm
-                .iter()
+            // fields are visited in key order, so that functions and cells inside them are
+            // numbered independently of the map's iteration order
+            let mut fields: Vec<_> = vm.iter().collect();
+            fields.sort_by(|a, b| a.0.cmp(b.0));
+            let l: Vec<(String, String)> = fields
+                .into_iter()
                 .map(|(k, x)| (k.to_string(), val_to_string(x, types, ids, depth + 1)))
                 .collect();
-            l.sort();
             format!("(struct{})", l.iter().map(|(k, x)| format!(" ({k} {x})")).collect::<String>())
         }
         Variable::Void => "void".into(),
